@@ -62,8 +62,9 @@ func (x *rootGuardian) Receive(ctx *ReceiveContext) {
 		x.handlePanicSignal(ctx)
 	case *Terminated:
 		actorID := msg.ActorPath()
-		if x.pid.logger.Enabled(log.DebugLevel) {
-			x.pid.logger.Debugf("actor=%s terminated", actorID)
+		// Terminated is a control message and may be handled before PostStart: do not rely on x.pid
+		if logger := ctx.Logger(); logger.Enabled(log.DebugLevel) {
+			logger.Debugf("actor=%s terminated", actorID)
 		}
 		// TODO: decide what to do the actor
 	default:
